@@ -1,1 +1,103 @@
+(* C13 — lemmas about Model.C13_Accounts: the state-at-epoch filters (this file), the stores and
+   their refresh histories (Proofs/C13_Store.v), specifier patterns and full match
+   (Proofs/C13_Match.v). *)
 From Verif Require Import Lib.Base Lib.RegexM Model.C13_Accounts.
+From Coq Require Import ZifyBool ZifyN ZifyNat.
+Open Scope N_scope.
+
+(* ---------------------------------------------------------------------------------------------
+   The declarative reading of the property text.
+
+   "active and not slashed in that epoch (activation epoch reached, exit epoch not reached)" *)
+Definition active_unslashed (v : val) (e : N) : Prop :=
+  v_act v <= e /\ e < v_exit v /\ v_slashed v = false.
+
+(* "withdrawal is done": the exit and the withdrawable epoch are reached and nothing is left *)
+Definition withdrawal_done (v : val) (e far : N) : Prop :=
+  v_exit v <> far /\ v_exit v <= e /\ v_wd v <= e /\ v_bal v = 0.
+
+(* sync-committee eligibility: activated, and kept until withdrawal is done *)
+Definition sync_eligible (v : val) (e far : N) : Prop :=
+  v_act v <= e /\ ~ withdrawal_done v e far.
+
+(* the consensus invariant the state filter needs: a slashed validator has been given an exit
+   epoch (slash_validator calls initiate_validator_exit) *)
+Definition slashed_has_exit (far : N) (v : val) : Prop :=
+  v_slashed v = true -> v_exit v <> far.
+
+Ltac vts :=
+  unfold validator_to_state;
+  repeat match goal with
+         | |- context [if ?c then _ else _] => let E := fresh "E" in destruct c eqn:E
+         end; cbn.
+
+Lemma state_filter : forall v e far,
+  e < far -> slashed_has_exit far v ->
+  (is_validating (validator_to_state v e far) = true <-> active_unslashed v e).
+Proof.
+  intros v e far He Hinv. unfold active_unslashed, slashed_has_exit in *.
+  vts; split; intro H; try discriminate; try reflexivity; lia.
+Qed.
+
+(* the same statement as a decision procedure *)
+Lemma state_filter_bool : forall v e far,
+  e < far -> slashed_has_exit far v ->
+  is_validating (validator_to_state v e far) = (v_act v <=? e) && (e <? v_exit v) && negb (v_slashed v).
+Proof.
+  intros v e far He Hinv.
+  apply eq_true_iff_eq. rewrite state_filter by assumption. unfold active_unslashed.
+  rewrite !andb_true_iff, negb_true_iff, N.leb_le, N.ltb_lt. tauto.
+Qed.
+
+(* the invariant is needed: a slashed validator without exit epoch is reported as validating *)
+Lemma state_filter_needs_invariant :
+  exists v e far, e < far /\ v_slashed v = true /\
+                  is_validating (validator_to_state v e far) = true /\ ~ active_unslashed v e.
+Proof.
+  exists {| v_pk := 1; v_index := 1; v_elig := 0; v_act := 0; v_exit := 100; v_wd := 100;
+            v_slashed := true; v_bal := 32 |}, 5, 100.
+  repeat split; try reflexivity. intros (_ & _ & H). discriminate.
+Qed.
+
+(* ... and so is the bound on the epoch: at e >= far a validator without exit epoch is still
+   reported although "e < exit" is false *)
+Lemma state_filter_needs_epoch_bound :
+  exists v e far, far <= e /\ slashed_has_exit far v /\
+                  is_validating (validator_to_state v e far) = true /\ ~ active_unslashed v e.
+Proof.
+  exists {| v_pk := 1; v_index := 1; v_elig := 0; v_act := 0; v_exit := 100; v_wd := 100;
+            v_slashed := false; v_bal := 32 |}, 100, 100.
+  repeat split; try reflexivity; try discriminate. intros (_ & H & _). cbn in H. lia.
+Qed.
+
+Lemma sync_filter : forall v e far,
+  is_sync_eligible (validator_to_state v e far) = true <-> sync_eligible v e far.
+Proof.
+  intros v e far. unfold sync_eligible, withdrawal_done.
+  vts; split; intro H; try discriminate; try reflexivity; lia.
+Qed.
+
+Lemma validating_is_sync_eligible : forall s, is_validating s = true -> is_sync_eligible s = true.
+Proof. destruct s; cbn; congruence. Qed.
+
+(* what sync eligibility adds: the exited and the slashed, until withdrawal is done *)
+Lemma sync_adds : forall v e far,
+  e < far -> slashed_has_exit far v ->
+  (is_sync_eligible (validator_to_state v e far) = true /\
+   is_validating (validator_to_state v e far) = false
+   <-> v_act v <= e /\ (v_exit v <= e \/ v_slashed v = true) /\ ~ withdrawal_done v e far).
+Proof.
+  intros v e far He Hinv.
+  rewrite sync_filter. rewrite <- not_true_iff_false. rewrite state_filter by assumption.
+  unfold sync_eligible, active_unslashed. split.
+  - intros [[Ha Hnd] Hnv]. repeat split; try assumption.
+    destruct (v_slashed v) eqn:Es; [right; reflexivity | left].
+    destruct (N.le_gt_cases (v_exit v) e); [assumption|]. exfalso; apply Hnv. repeat split; lia.
+  - intros (Ha & Hx & Hnd). repeat split; try assumption.
+    intros (_ & H1 & H2). destruct Hx; [lia | congruence].
+Qed.
+
+(* every state the transcribed function can return, by lifecycle position (used by the
+   non-vacuity examples) *)
+Lemma state_never_unknown : forall v e far, validator_to_state v e far <> SUnknown.
+Proof. intros v e far. vts; discriminate. Qed.
